@@ -40,7 +40,8 @@ def _hist_shard(args):
     traces, scripts = [], {}
     for tid, seed, prog, variant, nsteps, profile, mode in specs:
         if mode == 'exec':
-            src = layouts.variant(PROGRAMS[prog], variant, seed)
+            progs = PROGRAMS + R.EXTRA_PROGRAMS
+            src = layouts.variant(progs[prog % len(progs)], variant, seed)
         else:
             src = R.MODE_SOURCES[mode][prog % len(R.MODE_SOURCES[mode])]
         tr = R.run_history(rec, tid, seed, src, nsteps, profile, mode)
@@ -160,12 +161,13 @@ def collect(ctx, validated, stats):
 
 def history_specs(ctx, n, nsteps, profile, base, mode='exec'):
     from corpus.programs import PROGRAMS
-    from harness import layouts
+    from harness import layouts, c10_raw
     rng = random.Random(ctx.seed * 1000003 + 101 + base)
+    nprog = len(PROGRAMS) + len(c10_raw.EXTRA_PROGRAMS)
     specs = []
     for i in range(n):
-        prog = i % len(PROGRAMS)
-        variant = (i // len(PROGRAMS)) % layouts.N_VARIANTS
+        prog = i % nprog
+        variant = (i // nprog) % layouts.N_VARIANTS
         specs.append((base + i + 1, rng.randrange(1 << 30), prog, variant, nsteps, profile, mode))
     return specs
 
